@@ -6,22 +6,23 @@
    Spec: describe (what an exact description is) and coerce (literal -> value
    coercion of the GraphQL edition), compared by matches.  No proofs here. *)
 From Coq Require Import List NArith ZArith Bool String.
-From GQL Require Import Base.Bytes Types.Schema Types.Consistent.
+From GQL Require Import Base.Bytes Types.Schema Types.Consistent Types.Literal.
 Import ListNotations.
 Open Scope N_scope.
 
-(* ---------- values and literals ---------- *)
+(* ---------- values (literals: Types/Literal.v) ---------- *)
+(* A default value as the Go program configured it.  Which Go type carries a number (int, int64,
+   *int, ...), a list ([]interface{}, []int, [2]int) or an object (map[string]interface{},
+   map[string]int) is not visible here: the harness varies it, the model has one value. *)
 Inductive value :=
 | VNull
-| VInt (z : Z)            (* a Go int; also the internal value of an enum value *)
+| VInt (z : Z)            (* a Go integer; also the internal value of an enum value *)
+| VFloat (neg : bool) (digits : list N) (dp : Z)
+                          (* a finite float64 by its shortest decimal digits: +-0.d1...dn * 10^dp *)
 | VStr (b : bytes)
 | VBool (b : bool)
 | VList (l : list value)
-| VObj (fs : list (name * value)).   (* map[string]interface{}, keys in name order *)
-
-Inductive lit :=
-| LInt (z : Z) | LStr (b : bytes) | LBool (b : bool) | LEnum (n : name)
-| LList (l : list lit) | LObj (fs : list (name * lit)) | LOther.
+| VObj (fs : list (name * value)).   (* a Go map with string keys, keys in name order *)
 
 (* ---------- decorations ---------- *)
 Record argdec := AD { ad_desc : bytes; ad_default : option value }.
@@ -36,8 +37,12 @@ Record decor := Decor { dc_types : list (N * typedec); dc_dirs : list dirdec }.
 (* ---------- what introspection says ---------- *)
 Inductive dref := DRNamed (kind : bytes) (n : name) | DRList (t : dref) | DRNonNull (t : dref).
 (* an input value; the default is carried either as the configured value with its type (expected side)
-   or as the literal reported by introspection (reported side) *)
-Inductive ddefault := DNone | DValue (t : tref) (v : value) | DLit (l : lit).
+   or as the defaultValue string reported by introspection (reported side) *)
+Inductive ddefault :=
+| DNone
+| DValue (t : tref) (v : value)
+| DText (text : bytes) (parsed : option lit).
+    (* the defaultValue string; on the reported side also what the library's own parser makes of it *)
 Record dinput := DI { di_name : name; di_desc : bytes; di_type : dref; di_default : ddefault }.
 Record dfield := DF { df_name : name; df_desc : bytes; df_args : list dinput; df_type : dref;
                       df_isdep : bool; df_reason : option bytes }.
@@ -93,13 +98,32 @@ Definition find_dec {A} (n : name) (l : list (name * A)) : option A := assoc_nam
 Fixpoint filter_some {A} (l : list (option A)) : list A :=
   match l with [] => [] | Some x :: r => x :: filter_some r | None :: r => filter_some r end.
 
-Definition scalar_lit (v : value) : option lit :=
+(* the literal of a number lexeme as the lexer will classify the printed text (the Go code builds an
+   ast.IntValue or ast.FloatValue node; only the node's text reaches the printer) *)
+Definition num_lit (lx : bytes) : lit := if floaty lx then LFloat lx else LInt lx.
+
+(* the tail of astFromValue: bool, integer, float, string (is_float: the type is the built-in Float) *)
+Definition scalar_lit (is_float : bool) (v : value) : option lit :=
   match v with
   | VBool b => Some (LBool b)
-  | VInt z => Some (LInt z)
+  | VInt z => Some (if is_float then LFloat (dec_Z z ++ [46; 48]) else LInt (dec_Z z))
+  | VFloat neg ds dp => Some (num_lit (fmt_g neg ds dp))
   | VStr b => Some (LStr b)
-  | _ => None
+  | _ => None          (* lists / maps against a scalar: the Go code prints its %v fallback string; not modelled *)
   end.
+
+Definition lookup_or_null (n : name) (kv : list (name * value)) : value :=
+  match assoc_name n kv with Some x => x | None => VNull end.
+
+(* the object literal: the type's fields in name order, those whose value yields a literal *)
+Definition obj_lit (rec : tref -> value -> option lit) (sfs : list (name * tref)) (kv : list (name * value)) : list (name * lit) :=
+  filter_some (map (fun fd => match rec (snd fd) (lookup_or_null (fst fd) kv) with
+                              | Some l => Some (fst fd, l)
+                              | None => None
+                              end) sfs).
+
+Definition is_float_type (vt : vtype) : bool :=
+  match vt_def vt with VScalar => bytes_eqb (vt_name vt) (s "Float") | _ => false end.
 
 Fixpoint ast_from_value (fuel : nat) (ts : list vtype) (t : tref) (v : value) {struct fuel} : option lit :=
   match fuel with
@@ -123,13 +147,8 @@ Fixpoint ast_from_value (fuel : nat) (ts : list vtype) (t : tref) (v : value) {s
             match vt_def vt with
             | VInput fs =>
               match v with
-              | VObj kv =>
-                Some (LObj (filter_some (map (fun fd =>
-                        match ast_from_value f ts (snd fd) (match assoc_name (fst fd) kv with Some x => x | None => VNull end) with
-                        | Some l => Some (fst fd, l)
-                        | None => None
-                        end) (sort_name fst fs))))
-              | _ => scalar_lit v
+              | VObj kv => Some (LObj (obj_lit (ast_from_value f ts) (sort_name fst fs) kv))
+              | _ => scalar_lit false v
               end
             | VEnum names =>
               match v with
@@ -139,7 +158,7 @@ Fixpoint ast_from_value (fuel : nat) (ts : list vtype) (t : tref) (v : value) {s
                           end
               | _ => None
               end
-            | _ => scalar_lit v
+            | _ => scalar_lit (is_float_type vt) v
             end
           | None => None
           end
@@ -170,6 +189,31 @@ Definition ifield_default (D : decor) (i : N) (fn : name) : option value :=
   | None => None
   end.
 
+(* the object value: the type's fields in name order; a field the literal does not give (or gives
+   wrongly) takes the field's own default *)
+Definition obj_val (rec : tref -> lit -> option value) (dflt : name -> option value)
+           (sfs : list (name * tref)) (kl : list (name * lit)) : list (name * value) :=
+  filter_some (map (fun fd =>
+     match (match assoc_name (fst fd) kl with Some x => rec (snd fd) x | None => None end) with
+     | Some v => Some (fst fd, v)
+     | None => match dflt (fst fd) with Some dv => Some (fst fd, dv) | None => None end
+     end) sfs).
+
+Definition in_int32 (z : Z) : bool := ((-2147483648 <=? z) && (z <=? 2147483647))%Z.
+
+Definition coerce_scalar (nm : name) (l : lit) : option value :=
+  if bytes_eqb nm (s "Int") then
+    match l with LInt lx => let z := Z_of_dec lx in if in_int32 z then Some (VInt z) else None | _ => None end
+  else if bytes_eqb nm (s "Float") then
+    match l with
+    | LInt lx | LFloat lx => let '(neg, ds, dp) := float_of_lexeme lx in Some (VFloat neg ds dp)
+    | _ => None
+    end
+  else if bytes_eqb nm (s "Boolean") then match l with LBool b => Some (VBool b) | _ => None end
+  else if bytes_eqb nm (s "String") then match l with LStr b => Some (VStr b) | _ => None end
+  else if bytes_eqb nm (s "ID") then match l with LStr b | LInt b => Some (VStr b) | _ => None end
+  else None.            (* custom scalars: their ParseLiteral belongs to the user *)
+
 Fixpoint coerce (fuel : nat) (ts : list vtype) (D : decor) (t : tref) (l : lit) {struct fuel} : option value :=
   match fuel with
   | O => None
@@ -187,25 +231,11 @@ Fixpoint coerce (fuel : nat) (ts : list vtype) (D : decor) (t : tref) (l : lit) 
         match vt_def vt with
         | VInput fs =>
           match l with
-          | LObj kl =>
-            Some (VObj (filter_some (map (fun fd =>
-                    match (match assoc_name (fst fd) kl with
-                           | Some x => coerce f ts D (snd fd) x
-                           | None => None
-                           end) with
-                    | Some v => Some (fst fd, v)
-                    | None => match ifield_default D i (fst fd) with Some dv => Some (fst fd, dv) | None => None end
-                    end) (sort_name fst fs))))
+          | LObj kl => Some (VObj (obj_val (coerce f ts D) (ifield_default D i) (sort_name fst fs) kl))
           | _ => None
           end
         | VEnum names => match l with LEnum n => match index_of n names 1%Z with Some k => Some (VInt k) | None => None end | _ => None end
-        | VScalar =>
-          let nm := vt_name vt in
-          if bytes_eqb nm (s "Int") then match l with LInt z => if ((-2147483648 <=? z) && (z <=? 2147483647))%Z then Some (VInt z) else None | _ => None end
-          else if bytes_eqb nm (s "Boolean") then match l with LBool b => Some (VBool b) | _ => None end
-          else if bytes_eqb nm (s "String") then match l with LStr b => Some (VStr b) | _ => None end
-          else if bytes_eqb nm (s "ID") then match l with LStr b => Some (VStr b) | _ => None end
-          else None
+        | VScalar => coerce_scalar (vt_name vt) l
         | _ => None
         end
       | None => None
@@ -215,6 +245,103 @@ Fixpoint coerce (fuel : nat) (ts : list vtype) (D : decor) (t : tref) (l : lit) 
   end.
 
 Definition lit_fuel : nat := 64.
+
+(* ---------- Spec: the defaults for which the property's sentence is meant ---------- *)
+(* a float64 by its shortest digits: no leading or trailing zero digit, at most 17 digits, finite *)
+Definition float_ok (neg : bool) (ds : list N) (dp : Z) : bool :=
+  match ds with
+  | [] => negb neg && (dp =? 0)%Z
+  | d :: _ => negb (d =? 0) && negb (last ds 1 =? 0) && forallb (fun x => x <=? 9) ds
+              && (N.of_nat (List.length ds) <=? 17) && (-330 <=? dp)%Z && (dp <=? 310)%Z
+  end.
+
+Definition wt_scalar (nm : name) (v : value) : bool :=
+  if bytes_eqb nm (s "Int") then match v with VInt z => in_int32 z | _ => false end
+  else if bytes_eqb nm (s "Float") then
+    match v with
+    | VFloat neg ds dp => float_ok neg ds dp
+    | VInt z => (Z.abs z <=? 9007199254740992)%Z       (* an integer a float64 holds exactly *)
+    | _ => false
+    end
+  else if bytes_eqb nm (s "Boolean") then match v with VBool _ => true | _ => false end
+  else if bytes_eqb nm (s "String") || bytes_eqb nm (s "ID") then match v with VStr b => string_ok b | _ => false end
+  else false.
+
+(* the map gives, in field order, values for some of the fields; a field it does not give has no
+   default of its own (else coercion fills that default in) *)
+Fixpoint wt_fields (rec : tref -> value -> bool) (dflt : name -> option value)
+         (sfs : list (name * tref)) (kv : list (name * value)) : bool :=
+  match sfs with
+  | [] => match kv with [] => true | _ => false end
+  | (fn, ft) :: r =>
+    match kv with
+    | (k, x) :: kv' =>
+      if bytes_eqb k fn then name_lexeme_ok fn && rec ft x && wt_fields rec dflt r kv'
+      else match dflt fn with None => wt_fields rec dflt r kv | Some _ => false end
+    | [] => match dflt fn with None => wt_fields rec dflt r kv | Some _ => false end
+    end
+  end.
+
+(* v is a well-typed default for t: non-null where it matters, list values for list types, declared
+   internal values for enums, maps over declared fields for input objects, in-range numbers *)
+Fixpoint wt_default (fuel : nat) (ts : list vtype) (D : decor) (t : tref) (v : value) {struct fuel} : bool :=
+  match fuel with
+  | O => false
+  | Datatypes.S f =>
+    match t with
+    | TNil => false
+    | TNonNull t' => wt_default f ts D t' v
+    | TList t' => match v with VList l => forallb (wt_default f ts D t') l | _ => false end
+    | TNamed i =>
+      match vfind ts i with
+      | Some vt =>
+        match vt_def vt with
+        | VScalar => wt_scalar (vt_name vt) v
+        | VEnum names =>
+          match v with
+          | VInt z => (0 <? z)%Z && nodup_names names
+                      && match nth_error names (Z.to_nat (z - 1)) with Some n => enum_lexeme_ok n | None => false end
+          | _ => false
+          end
+        | VInput fs =>
+          match v with
+          | VObj kv => nodup_names (map fst fs) && wt_fields (wt_default f ts D) (ifield_default D i) (sort_name fst fs) kv
+          | _ => false
+          end
+        | _ => false
+        end
+      | None => false
+      end
+    end
+  end.
+
+(* the configured default and what coercion gives back are the same value: equal, where a Go
+   integer configured for a Float and the float read back are the same number *)
+Fixpoint same_value (a b : value) {struct a} : bool :=
+  match a, b with
+  | VNull, VNull => true
+  | VInt x, VInt y => (x =? y)%Z
+  | VInt x, VFloat n ds dp =>
+    let '(n', ds', dp') := float_of_Z x in Bool.eqb n n' && bytes_eqb ds ds' && (dp =? dp')%Z
+  | VFloat n ds dp, VFloat n' ds' dp' => Bool.eqb n n' && bytes_eqb ds ds' && (dp =? dp')%Z
+  | VStr x, VStr y => bytes_eqb x y
+  | VBool x, VBool y => Bool.eqb x y
+  | VList x, VList y =>
+    (fix go (x y : list value) : bool :=
+       match x, y with
+       | [], [] => true
+       | u :: x', w :: y' => same_value u w && go x' y'
+       | _, _ => false
+       end) x y
+  | VObj x, VObj y =>
+    (fix go (x y : list (name * value)) : bool :=
+       match x, y with
+       | [], [] => true
+       | (n, u) :: x', (m, w) :: y' => bytes_eqb n m && same_value u w && go x' y'
+       | _, _ => false
+       end) x y
+  | _, _ => false
+  end.
 
 (* ---------- the exact description of a schema (Spec) ---------- *)
 Definition dep_reason (b : bytes) : option bytes := match b with [] => None | _ => Some b end.
@@ -276,7 +403,7 @@ Definition describe (V : view) (D : decor) : description :=
 (* ---------- Model: what the resolvers return (defaults printed by astFromValue) ---------- *)
 Definition resolve_default (ts : list vtype) (d : ddefault) : ddefault :=
   match d with
-  | DValue t v => match ast_from_value lit_fuel ts t v with Some l => DLit l | None => DNone end
+  | DValue t v => match ast_from_value lit_fuel ts t v with Some l => DText (print_lit l) (Some l) | None => DNone end
   | x => x
   end.
 Definition resolve_input (ts : list vtype) (i : dinput) : dinput :=
@@ -295,53 +422,6 @@ Definition introspect (V : view) (D : decor) : description :=
        (map (resolve_directive (v_types V)) (d_directives e)).
 
 (* ---------- comparison: expected description against a reported one ---------- *)
-Fixpoint value_eqb (a b : value) {struct a} : bool :=
-  match a, b with
-  | VNull, VNull => true
-  | VInt x, VInt y => (x =? y)%Z
-  | VStr x, VStr y => bytes_eqb x y
-  | VBool x, VBool y => Bool.eqb x y
-  | VList x, VList y =>
-    (fix go (x y : list value) : bool :=
-       match x, y with
-       | [], [] => true
-       | u :: x', w :: y' => value_eqb u w && go x' y'
-       | _, _ => false
-       end) x y
-  | VObj x, VObj y =>
-    (fix go (x y : list (name * value)) : bool :=
-       match x, y with
-       | [], [] => true
-       | (n, u) :: x', (m, w) :: y' => bytes_eqb n m && value_eqb u w && go x' y'
-       | _, _ => false
-       end) x y
-  | _, _ => false
-  end.
-
-Fixpoint lit_eqb (a b : lit) {struct a} : bool :=
-  match a, b with
-  | LInt x, LInt y => (x =? y)%Z
-  | LStr x, LStr y => bytes_eqb x y
-  | LBool x, LBool y => Bool.eqb x y
-  | LEnum x, LEnum y => bytes_eqb x y
-  | LList x, LList y =>
-    (fix go (x y : list lit) : bool :=
-       match x, y with
-       | [], [] => true
-       | u :: x', w :: y' => lit_eqb u w && go x' y'
-       | _, _ => false
-       end) x y
-  | LObj x, LObj y =>
-    (fix go (x y : list (name * lit)) : bool :=
-       match x, y with
-       | [], [] => true
-       | (n, u) :: x', (m, w) :: y' => bytes_eqb n m && lit_eqb u w && go x' y'
-       | _, _ => false
-       end) x y
-  | LOther, LOther => true
-  | _, _ => false
-  end.
-
 Fixpoint dref_eqb (a b : dref) : bool :=
   match a, b with
   | DRNamed k n, DRNamed k' n' => bytes_eqb k k' && bytes_eqb n n'
@@ -350,15 +430,26 @@ Fixpoint dref_eqb (a b : dref) : bool :=
   end.
 
 (* expected default e against reported default r.
-   spec = true : the reported literal, coerced against the type, gives back the configured value;
-   spec = false: the reported literal is the one astFromValue produces *)
+   spec = true : the reported string is a literal that, coerced against the type, gives back the
+                 configured value (the property's sentence);
+   spec = false: the reported string is byte for byte the one the model prints, and the library's
+                 parser reads it as the model's parser does *)
 Definition default_match (spec : bool) (ts : list vtype) (D : decor) (e r : ddefault) : bool :=
   match e, r with
   | DNone, DNone => true
-  | DValue t v, DLit l =>
-    if spec then match coerce lit_fuel ts D t l with Some v' => value_eqb v v' | None => false end
-    else match ast_from_value lit_fuel ts t v with Some l' => lit_eqb l' l | None => false end
-  | DLit l, DLit l' => lit_eqb l l'
+  | DValue t v, DText text libparse =>
+    if spec then
+      match parse_lit text with
+      | Some l => match coerce lit_fuel ts D t l with Some v' => same_value v v' | None => false end
+      | None => false
+      end
+    else
+      match ast_from_value lit_fuel ts t v with
+      | Some l' => bytes_eqb (print_lit l') text
+                   && match libparse with Some lp => match parse_lit text with Some l => lit_eqb l lp | None => false end | None => true end
+      | None => false
+      end
+  | DText a _, DText b _ => bytes_eqb a b
   | _, _ => false
   end.
 
@@ -400,6 +491,18 @@ Section Match.
     && opt_match bytes_eqb (d_subscription e) (d_subscription r)
     && list_match directive_match (d_directives e) (d_directives r).
 End Match.
+
+(* every default configured in a description is a well-typed default (wt_default) *)
+Definition default_wt (ts : list vtype) (D : decor) (d : ddefault) : bool :=
+  match d with DNone => true | DValue t v => wt_default lit_fuel ts D t v | DText _ _ => false end.
+Definition inputs_wt (ts : list vtype) (D : decor) (l : list dinput) : bool :=
+  forallb (fun i => default_wt ts D (di_default i)) l.
+Definition field_wt (ts : list vtype) (D : decor) (f : dfield) : bool := inputs_wt ts D (df_args f).
+Definition type_wt (ts : list vtype) (D : decor) (t : dtype) : bool :=
+  match dt_fields t with Some fs => forallb (field_wt ts D) fs | None => true end
+  && match dt_inputs t with Some l => inputs_wt ts D l | None => true end.
+Definition description_wt (ts : list vtype) (D : decor) (e : description) : bool :=
+  forallb (type_wt ts D) (d_types e) && forallb (fun d => inputs_wt ts D (ddr_args d)) (d_directives e).
 
 (* the Spec: the reported description r (lists in name order) is an exact description of (V, D) *)
 Definition describes (V : view) (D : decor) (r : description) : bool := matches true (v_types V) D (describe V D) r.
